@@ -198,6 +198,107 @@ def parse_attrs(xml_bytes):
     return out
 
 
+# ---------------------------------------------------------------------- does the schema accept a string? (independent of odfpy)
+XML_WS = u' \t\n\r'
+XSD_LEXICAL = {
+    'integer': re.compile(r'[+-]?[0-9]+\Z'), 'nonNegativeInteger': re.compile(r'(\+?[0-9]+|-0+)\Z'),
+    'positiveInteger': re.compile(r'\+?0*[1-9][0-9]*\Z'), 'decimal': re.compile(r'[+-]?([0-9]+(\.[0-9]*)?|\.[0-9]+)\Z'),
+    'double': re.compile(r'([+-]?([0-9]+(\.[0-9]*)?|\.[0-9]+)([eE][+-]?[0-9]+)?|-?INF|NaN)\Z'),
+    'language': re.compile(r'[a-zA-Z]{1,8}(-[a-zA-Z0-9]{1,8})*\Z'),
+}
+
+
+_FACETS = {}
+
+
+def _facet(pat):
+    if pat not in _FACETS:
+        try:
+            T.parse_regex(pat, 'xsd')                    # inside the subset whose XSD -> Python rewriting is understood
+            _FACETS[pat] = re.compile(T.xsd_to_py(pat))
+        except Exception:
+            _FACETS[pat] = None
+    return _FACETS[pat]
+
+
+def collapse(s):
+    return u' '.join(x for x in re.split(u'[ \t\n\r]+', s) if x)
+
+
+def atom_accepts(at, s):
+    """True / False, or None when this reading of the schema cannot decide (then the string is NOT used as a near-miss)"""
+    if at[0] == 'val':
+        return collapse(s) == collapse(at[1])            # <value> is of type token unless said otherwise
+    if at[0] == 'text':
+        return True
+    if at[0] == 'empty':
+        return collapse(s) == u''
+    if at[0] == 'data':
+        ty, pat = at[1], at[2]
+        if at[3]:
+            return None
+        if pat is not None:
+            rx = _facet(pat)
+            if rx is None:
+                return None
+            return rx.fullmatch(s if ty == 'string' else collapse(s)) is not None
+        if ty == 'string':
+            return True
+        if ty in XSD_LEXICAL:
+            return XSD_LEXICAL[ty].match(collapse(s)) is not None
+        return None
+    if at[0] == 'list':
+        toks = [x for x in re.split(u'[ \t\n\r]+', s) if x]
+        r = _body_accepts(at[1], toks)
+        return r
+    return None
+
+
+def _body_accepts(body, toks):
+    """does the token sequence match the list body?  (None = undecidable somewhere)"""
+    unknown = [False]
+    def ends(parts, i):
+        # set of positions reachable after matching `parts` from position i
+        pos = set([i])
+        for part in parts:
+            nxt = set()
+            for p in pos:
+                if part[0] == 'item':
+                    if p < len(toks):
+                        rs = [atom_accepts(a, toks[p]) for a in part[1]]
+                        if any(r is True for r in rs):
+                            nxt.add(p + 1)
+                        elif any(r is None for r in rs):
+                            unknown[0] = True
+                            nxt.add(p + 1)
+                elif part[0] == 'opt':
+                    nxt.add(p); nxt |= ends(part[1], p)
+                else:
+                    reach, frontier = set(), set([p])
+                    if part[0] == 'star':
+                        reach.add(p)
+                    while frontier:
+                        new = set()
+                        for q in frontier:
+                            for e in ends(part[1], q):
+                                if e not in reach and e > q:
+                                    new.add(e)
+                        reach |= new
+                        frontier = new
+                    nxt |= reach
+            pos = nxt
+        return pos
+    ok = len(toks) in ends(body, 0)      # undecidable items were taken as matching: a `False` is definite
+    if not ok:
+        return False
+    return None if unknown[0] else True
+
+
+def schema_rejects(dts, s):
+    """the string is outside the lexical space of every datatype the schema gives this (element, attribute) pair"""
+    return all(atom_accepts(at, s) is False for dt in dts for at in dt)
+
+
 # ---------------------------------------------------------------------- near misses
 def near_misses(kind, valid, members=None):
     """strings that are *not* in the type, derived from valid values (the caller filters with the type authority)"""
@@ -294,11 +395,12 @@ def run(chk, replay=None):
     thorough = chk.tier == 'thorough'
     K = 8 if thorough else 5
 
+    name_of = T.converter_names(ac)     # by identity of the function object, not by its __name__
     def real_lookup(attr, el):
         f = ac.attrconverters.get((attr, el), None)
         if f is None:
             f = ac.attrconverters.get((attr, None), None)
-        return f.__name__ if f is not None else 'str'
+        return name_of.get(id(f), getattr(f, '__name__', 'unnamed')) if f is not None else 'str'
 
     # authorities for the validated types: the schema's own pattern facets / value sets (independent of the code)
     auth = {}
@@ -327,6 +429,9 @@ def run(chk, replay=None):
                 continue
             ens, el, ans, al, c = line.split()
             frozen[((ens, el), (ans, al))] = c
+    group_dts = {}        # inventory converter -> the schema datatypes of all its pairs
+    for (fe, fa), c in frozen.items():
+        group_dts.setdefault(c, []).extend(pairs.get((fe, fa), []))
     cases = []            # (el, attr, value, expect, dt, cnvname)
     nm_used = {}
     seeded = {}
@@ -346,16 +451,21 @@ def run(chk, replay=None):
             chk.count('validated_pair_rebound')
         cnv_now = cnvname
         cnvname = vname if vname is not None else cnvname
+        # A near-miss is a perturbed schema-valid value that the SCHEMA rejects for this pair (and, for the pattern types, that
+        # is outside the validated type named by the inventory).  Nothing here looks at what the code or the translator says.
         if cnvname in PATTERN_TYPES:
             types = PATTERN_TYPES[cnvname]
             for tname in types:
                 for s in near_misses(tname, type_valid[tname]) + cross_values:
-                    if not any(in_type(t2, s) for t2 in types) and s not in nms:
+                    if not any(in_type(t2, s) for t2 in types) and schema_rejects(pairs[(e, a)], s) and s not in nms:
                         nms.append(s)
         elif cnvname in ENUM_CONVERTERS:
-            members = sorted(enum_union.get(cnvname, ()))
+            # the validated type of an enumeration converter is the union of the schema's enumerations over the pairs the
+            # inventory gives to that converter (xlink:show: new|replace|embed|none); a near-miss is outside all of them
+            group = group_dts.get(cnvname, []) + pairs[(e, a)]
+            members = sorted(set(at[1] for dt in group for at in dt if at[0] == 'val'))
             for s in near_misses('enum', members) + cross_values:
-                if s not in enum_union.get(cnvname, ()) and s.strip(u' \t\n\r') not in enum_union.get(cnvname, ()) and s not in nms:
+                if schema_rejects(group, s) and s not in nms:
                     nms.append(s)
         # values of the validated types are stored on the first pairs of each type (they are near-misses elsewhere)
         for tname, key in (('length', 'length'), ('percent', 'percent'), ('points', 'points'),
